@@ -1062,6 +1062,18 @@ def rule(prog, res, scope=None, rule_name='index-site'):
                 res.undecided(rule_name, inst, f.loc(s.nid), detail + ' (spec/invariants.json justifies this site, but the mechanical part of the justification no longer holds on this tree)', function=f.sig, expr=key)
         else:
             ev_ = overrun_evidence(prog, s, ctx)
+            callers_ = [(g_, c_) for g_, c_ in prog.callers_of(f.usr) if g_.usr != f.usr]
+            if ev_ and (f.rec.get('internal') or '(anonymous namespace)' in f.qname) and re.search(r'\barg\d+\b', key) and callers_ and len(callers_) <= 12:
+                # a file-local helper: the read is reported where it is asked for, in the caller's terms (one report per call site), so that
+                # a finding identified by the value read is recognised wherever the read was moved
+                from codec import substitute
+                for g_, c_ in callers_:
+                    Rg = ctx.setdefault(('R', g_.usr), Renderer(g_))
+                    sub_ = {'arg%d' % i_: re.sub(r'^\*\((.*)\)$', r'\1', uncast(Rg.render(a_))) for i_, a_ in enumerate(g_.call_args(c_))}
+                    k2 = re.sub(r'\barg(\d+)\b', lambda m_: sub_.get(m_.group(0), m_.group(0)), key)
+                    res.viol(rule_name, re.sub(r'\barg(\d+)\b', lambda m_: sub_.get(m_.group(0), m_.group(0)), inst), g_.loc(c_['id']), '%s: %s (read inside %s, called here)' % (detail, ev_, f.name),
+                             function=g_.sig, expr=k2)
+                continue
             if ev_:
                 res.viol(rule_name, inst, f.loc(s.nid), '%s: %s' % (detail, ev_), function=f.sig, expr=key)
             else:
